@@ -3,6 +3,7 @@ package props
 import (
 	"fmt"
 	"go/token"
+	"go/types"
 
 	"godcheck/core"
 
@@ -271,4 +272,162 @@ func casesOf(a *core.Alg, v ssa.Value) []polyCase {
 		return []polyCase{{p, via}}
 	}
 	return expand(b.Norm(v), nil, 0)
+}
+
+// ---- accumulator updates routed through a step function (acc = step(acc, b)) ----
+
+// c09StepFunction recognises `step(old, b)` as the new value of an accumulator of the reducer g:
+// a call of an in-package function with a body — called statically, or through a free variable of
+// g that the closure's creation site mc binds to one function (by value, or a captured variable
+// assigned exactly once, a function, and written by no closure) — with exactly two arguments: the
+// previous accumulator (recognised by old) and g's own bucket parameter, passed unchanged. It
+// returns the function and its parameter holding the previous accumulator, or nil.
+func c09StepFunction(g *ssa.Function, mc *ssa.MakeClosure, val ssa.Value, old func(ssa.Value) bool) (*ssa.Function, *ssa.Parameter) {
+	cl, ok := c09SameValue(val).(*ssa.Call)
+	if !ok || cl.Call.IsInvoke() || len(cl.Call.Args) != 2 {
+		return nil, nil
+	}
+	h := cl.Call.StaticCallee()
+	if h == nil && mc != nil {
+		h = c09BoundFunction(g, mc, cl.Call.Value)
+	}
+	if h == nil || h.Blocks == nil || len(h.Params) != 2 || len(h.FreeVars) != 0 || h.Signature.Results().Len() != 1 {
+		return nil, nil
+	}
+	var acc *ssa.Parameter
+	nb := 0
+	for i, arg := range cl.Call.Args {
+		switch {
+		case old(arg):
+			acc = h.Params[i]
+		default:
+			if par, isPar := core.Forward(arg).(*ssa.Parameter); isPar && par.Parent() == g {
+				if _, isPtr := par.Type().Underlying().(*types.Pointer); isPtr {
+					nb++
+				}
+			}
+		}
+	}
+	if acc == nil || nb != 1 {
+		return nil, nil
+	}
+	// the parameter holding the previous accumulator is never re-assigned (a parameter whose
+	// address is taken lives in a cell: then it is not recognised)
+	return h, acc
+}
+
+// c09BoundFunction resolves the callee value fv of a dynamic call inside the closure g — a free
+// variable (captured by value) or a load of one (captured by reference) — to the single function
+// the creation site mc binds it to.
+func c09BoundFunction(g *ssa.Function, mc *ssa.MakeClosure, fv ssa.Value) *ssa.Function {
+	if u, isLoad := fv.(*ssa.UnOp); isLoad && u.Op == token.MUL {
+		fv = u.X
+	}
+	idx := -1
+	for i, x := range g.FreeVars {
+		if ssa.Value(x) == fv {
+			idx = i
+		}
+	}
+	if idx < 0 || idx >= len(mc.Bindings) {
+		return nil
+	}
+	writes := func(h *ssa.Function, k int) bool {
+		if h == nil || k >= len(h.FreeVars) {
+			return true
+		}
+		for _, f := range core.WithAnon(h) {
+			for _, b := range f.Blocks {
+				for _, in := range b.Instrs {
+					if st, isSt := in.(*ssa.Store); isSt && st.Addr == ssa.Value(h.FreeVars[k]) {
+						return true
+					}
+					// handed on to a nested closure: not followed
+					if m, isMC := in.(*ssa.MakeClosure); isMC && f == h {
+						for _, bb := range m.Bindings {
+							if bb == ssa.Value(h.FreeVars[k]) {
+								return true
+							}
+						}
+					}
+				}
+			}
+		}
+		return false
+	}
+	switch bd := mc.Bindings[idx].(type) {
+	case *ssa.Function:
+		return bd
+	case *ssa.Alloc:
+		if bd.Referrers() == nil {
+			return nil
+		}
+		var fn *ssa.Function
+		nst := 0
+		for _, ref := range *bd.Referrers() {
+			switch x := ref.(type) {
+			case *ssa.Store:
+				if x.Addr != ssa.Value(bd) {
+					return nil // the cell itself escapes
+				}
+				nst++
+				fn, _ = x.Val.(*ssa.Function)
+			case *ssa.UnOp:
+				if x.Op != token.MUL {
+					return nil
+				}
+			case *ssa.MakeClosure:
+				h, _ := x.Fn.(*ssa.Function)
+				for k, bb := range x.Bindings {
+					if bb == ssa.Value(bd) && writes(h, k) {
+						return nil
+					}
+				}
+			case *ssa.DebugRef:
+			default:
+				return nil
+			}
+		}
+		if nst != 1 {
+			return nil
+		}
+		return fn
+	}
+	return nil
+}
+
+// c09Update is one way a step function returns: the returned value and the instruction every
+// path returning it passes (the return itself, or the end of the predecessor block through which
+// a merged result takes this value).
+type c09Update struct {
+	val ssa.Value
+	at  ssa.Instruction
+}
+
+// c09ReturnedUpdates lists what the single-result function h can return, splitting merged results
+// (φ-nodes in the returning block, two levels) by incoming edge.
+func c09ReturnedUpdates(h *ssa.Function) []c09Update {
+	var out []c09Update
+	var expand func(v ssa.Value, at ssa.Instruction, depth int)
+	expand = func(v ssa.Value, at ssa.Instruction, depth int) {
+		v = c09SameValue(v)
+		phi, isPhi := v.(*ssa.Phi)
+		if !isPhi || depth > 2 {
+			out = append(out, c09Update{v, at})
+			return
+		}
+		for i, e := range phi.Edges {
+			pred := phi.Block().Preds[i]
+			expand(e, pred.Instrs[len(pred.Instrs)-1], depth+1)
+		}
+	}
+	for _, b := range h.Blocks {
+		if len(b.Instrs) == 0 {
+			continue
+		}
+		if ret, isRet := b.Instrs[len(b.Instrs)-1].(*ssa.Return); isRet && len(ret.Results) == 1 {
+			expand(ret.Results[0], ret, 0)
+		}
+	}
+	return out
 }
